@@ -113,6 +113,57 @@ def extra_pairs(rng, n):
   return out, count
 
 
+def other_fn(x=0, y=0, s1=0):
+  return (x, y, s1)
+
+
+def handmade_pairs(rng, n):
+  """(old, new, label) triples outside the heap machine's vocabulary."""
+  from fiddle._src import tagging
+  out = []
+  for _ in range(n):
+    a = fdl.Config(H.g4, s1=rng.randint(1, 3))
+    old = fdl.Config(H.f1, s1=fdl.Config(H.ClsA, s1=a, s2=2), s2=[a, (1, (2, 3))], s3=((4, 5), [6]))
+    tagging.add_tag(old.s1, 's2', H.T0)
+    new = copy.deepcopy(old)
+    ch = rng.randint(0, 5)
+    if ch == 0:      # callable swapped for one with other parameter names, tags on exclusive parameters
+      new.s1 = fdl.Config(other_fn, x=new.s1.s1, y=3)
+      tagging.add_tag(new.s1, 'y', H.T1)
+      old2 = copy.deepcopy(old)
+      out.append((old, new, 'callable-swap-new-object'))
+      # the same with the node kept (update_callable), so that it is aligned
+      new2 = copy.deepcopy(old2)
+      tagging.clear_tags(new2.s1, 's2')
+      fdl.update_callable(new2.s1, other_fn, drop_invalid_args=True)
+      new2.s1.x = 7
+      tagging.add_tag(new2.s1, 'y', H.T1)
+      out.append((old2, new2, 'callable-swap-with-tags'))
+      continue
+    if ch == 1:      # item of a tuple nested in a tuple changes
+      new.s2 = [new.s2[0], (1, (2, 9))]
+      new.s3 = ((4, 8), new.s3[1])
+    elif ch == 2:    # old root reachable from new
+      wrapper = fdl.Config(H.f1, s1=old, s2=1)
+      out.append((old, wrapper, 'old-root-inside-new'))
+      out.append((wrapper, old, 'new-root-inside-old'))
+      out.append((old, old, 'same-object'))
+      continue
+    elif ch == 3:    # three levels of new shared values
+      l1 = fdl.Config(H.g4, s2=new.s1.s1)
+      l2 = [l1, l1]
+      l3 = {'k1': l2, 'k2': l2}
+      new.s2 = [l3, l3]
+    elif ch == 4:    # subtree moved and alias created
+      new.s3 = new.s1
+      new.s1 = new.s1.s1
+    else:            # tags only
+      tagging.set_tags(new.s1, 's2', [H.T1, H.T2])
+      tagging.add_tag(new, 's3', H.T0)
+    out.append((old, new, f'handmade-{ch}'))
+  return out
+
+
 def posfn(a, b=2, /, c=3, *rest, k=0):
   return (a, b, c, rest, k)
 
@@ -166,7 +217,11 @@ def main():
     totals, res = run_pairs(v, work, wd, quick)
     rng = random.Random(common.seed() * 236887691 + 13)
     ex, nex = extra_pairs(rng, 200 if quick else 2000)
-    for f, msg in ex + positional_scenario():
+    hm = []
+    for old, new, label in handmade_pairs(rng, 40 if quick else 400):
+      hm += check_pair_objs(old, new, H.project(new)[0], old is new, {'rw': label, 'nedits': 0})
+      nex += 1
+    for f, msg in ex + positional_scenario() + hm:
       v.mismatch(f, {'message': msg})
   v.coverage.update({
       'states': res.distinct, 'transitions': res.generated,
